@@ -68,7 +68,7 @@ func (c12) Decode(raw json.RawMessage) (interface{}, error) {
 
 func (c12) Sched(plan interface{}) []*SimCfg {
 	p := plan.(*C12Plan)
-	return []*SimCfg{&p.Sim, &p.Solo}
+	return []*SimCfg{&p.Sim}
 }
 
 type c12res struct {
@@ -94,7 +94,11 @@ func (c12) Exec(plan interface{}) Result {
 	if p.Pristine && env.FreshConfig() {
 		res.note("pristine-config")
 	}
-	conc, out2 := Simulate(p.Sim, 40000, func() [][]string {
+	// ONE simulation for both phases (a library that keeps worker goroutines alive across
+	// calls must find them in the same bubble): first all clients concurrently, then every
+	// operation alone, one after the other, on the same task.
+	type both struct{ conc, solo [][]string }
+	bo, out2 := Simulate(p.Sim, 60000, func() both {
 		done := make(chan c12res, len(p.Clients))
 		for c := range p.Clients {
 			c := c
@@ -112,28 +116,19 @@ func (c12) Exec(plan interface{}) Result {
 			r := verifsim.Recv(done, siteC12Client)
 			all[r.client] = r.outs
 		}
-		return all
+		solo := make([][]string, len(p.Clients))
+		for c, ops := range p.Clients {
+			for _, o := range ops {
+				solo[c] = append(solo[c], runOp(o))
+			}
+		}
+		return both{all, solo}
 	})
 	res.absorb(out2)
 	if res.Class != "" || res.Infra != "" {
-		res.Detail = "concurrent phase: " + res.Detail
 		return res
 	}
-	// then every operation alone (one after the other, same simulated CPU count)
-	solo, out := Simulate(p.Solo, 20000, func() [][]string {
-		all := make([][]string, len(p.Clients))
-		for c, ops := range p.Clients {
-			for _, o := range ops {
-				all[c] = append(all[c], runOp(o))
-			}
-		}
-		return all
-	})
-	res.absorb(out)
-	if res.Class != "" || res.Infra != "" {
-		res.Detail = "solo phase: " + res.Detail
-		return res
-	}
+	conc, solo := bo.conc, bo.solo
 	for c := range p.Clients {
 		for i := range p.Clients[c] {
 			if i >= len(conc[c]) || conc[c][i] != solo[c][i] {
